@@ -39,7 +39,7 @@ import (
 )
 
 func TestMain(m *testing.M) {
-	vstat.Rule("Generated concurrent programs: one middleware instance (roundrobin with sticky sessions, rebalancer, circuit breaker cycling through all states, RTMetrics, rate limiter, connection limiter, TTL map, tracer) or a stack of 2-5 of them, G = 2-8 goroutines, each a sequence of 20-200 operations drawn from that instance's concurrent API (ServeHTTP with generated status/source/cookie, UpsertServer/RemoveServer/Servers/ServerWeight/NextServer, Record/TotalCount/NetworkErrorRatio/ResponseCodeRatio/StatusCodesCounts/LatencyHistogram/Export/Reset, Set/Get/Len/Increment). Real clock, real goroutines. Oracle: (a) the Go race detector (happens-before; halt_on_error) over the whole run, (b) exact totals after join (no lost update): TotalCount / per-status counts / network errors == operations issued, trace records == requests, handler invocations == admitted requests, balancer selections are exactly proportional, all connection slots returned. Non-trivial: >= 2 goroutines on the same instance with >= 1 writer-type operation each.")
+	vstat.Rule("Generated concurrent programs: one middleware instance (roundrobin with sticky sessions, rebalancer, circuit breaker cycling through all states, RTMetrics, rate limiter, connection limiter, TTL map, tracer) or a stack of 2-5 of them, G = 2-8 goroutines, each a sequence of 20-200 operations drawn from that instance's concurrent API (ServeHTTP with generated status/source/cookie, UpsertServer/RemoveServer/Servers/ServerWeight/NextServer, Record/TotalCount/NetworkErrorRatio/ResponseCodeRatio/StatusCodesCounts/LatencyHistogram/Export/Reset, Set/Get/Len/Increment). Real clock, real goroutines. Oracle: (a) the Go race detector (happens-before; halt_on_error) over the whole run, (b) exact totals after join (no lost update): TotalCount / per-status counts / network errors == operations issued, trace records == requests, handler invocations == admitted requests, balancer selections are exactly proportional, all connection slots returned. Non-trivial: >= 2 goroutines on the same instance with >= 1 writer-type operation each. The rebalancer's scripted meters also verify that every outcome recorded on them carries their own server's digit (last digit of the status code).")
 	vstat.Main(m.Run)
 }
 
